@@ -24,7 +24,7 @@ func init() {
 		Run:         runC17,
 	}
 	Registry["C10"] = Set{
-		Explanation: "Decides structural clauses of 'no orphans': N1 every spawn issued by the supervisor and the pool passes options with LinkParent (and the supervisor LinkChild) constant-true; N2 spawn adds the child->parent link when LinkParent is set, before the child is published, and the exit sent when a process terminates names the terminated process as sender, so that a trapping child cannot trap its parent's exit (C05.T4 checks the trap exemption); N3 the node's wait group is incremented at spawn and decremented at process release under the same condition, graceful node stop waits on it before the network is torn down, and it sends the shutdown exit from each process's parent pid; N4 application.stop reports success only from the stopped channel or an already loaded state, and the channel is closed only when the member group is empty. Added while probing: N2 on a failed ProcessInit the children already spawned get their exit through sendExitMessage with the failed process as sender. N2 also: on a failed ProcessInit the relations that target the failed process are drained (RouteTerminatePID), so children linked to it by LinkParent get its exit; N3 the Wait is on every path to NetworkStop that is consistent with force == false; N5 = C17.A6. N6 lock pairing — in every function that touches the member group's (lib.Map) lock a forward data flow over (held read/write, unlock deferred) shows: no return while the lock is held without a deferred unlock, no unlock (explicit or deferred) of a lock that is not held or of the other kind, no second lock (a leaked lock blocks every later start, stop or member termination of the application for ever, an unlock of an unlocked mutex is a fatal error that takes the node down). N7 = C08.S12: a supervisor that terminates itself waits for every running child. N8 the refused-push edge of the exit delivery helper does not just return an error its callers ignore (open finding F-BK: a full bounded Urgent queue drops the parent's exit signal). N9 = C04.L6p.",
+		Explanation: "Decides structural clauses of 'no orphans': N1 every spawn issued by the supervisor and the pool passes options with LinkParent (and the supervisor LinkChild) constant-true; N2 spawn adds the child->parent link when LinkParent is set, before the child is published, and the exit sent when a process terminates names the terminated process as sender, so that a trapping child cannot trap its parent's exit (C05.T4 checks the trap exemption); N3 the node's wait group is incremented at spawn and decremented at process release under the same condition, graceful node stop waits on it before the network is torn down, and it sends the shutdown exit from each process's parent pid; N4 application.stop reports success only from the stopped channel or an already loaded state, and the channel is closed only when the member group is empty. Added while probing: N2 on a failed ProcessInit the children already spawned get their exit through sendExitMessage with the failed process as sender. N2 also: on a failed ProcessInit the relations that target the failed process are drained (RouteTerminatePID), so children linked to it by LinkParent get its exit; N3 the Wait is on every path to NetworkStop that is consistent with force == false; N5 = C17.A6. N6 lock pairing — in every function that touches the member group's (lib.Map) lock a forward data flow over (held read/write, unlock deferred) shows: no return while the lock is held without a deferred unlock, no unlock (explicit or deferred) of a lock that is not held or of the other kind, no second lock (a leaked lock blocks every later start, stop or member termination of the application for ever, an unlock of an unlocked mutex is a fatal error that takes the node down). N7 = C08.S12: a supervisor that terminates itself waits for every running child. N8 the refused-push edge of the exit delivery helper does not just return an error its callers ignore (open finding F-BK: a full bounded Urgent queue drops the parent's exit signal). N9 = C04.L6p. N10 node.Stop raises a flag before it walks the process table and spawn reads it after processes.Store, sending the exit signal itself on the set edge (a process registered after the walk passed would otherwise never be asked to terminate and Stop would never return).",
 		NotDecided: []string{
 			"transitive termination through a supervision tree under arbitrary fault points",
 			"that children terminate within the stop timeout",
@@ -693,6 +693,7 @@ func runC10(p *load.Program, r *core.Report) {
 	}
 	c08WaitSetComplete(p, r, supMachines(p), "C10.N7 supervisor-waits-for-every-running-child", "C10.N7", 3)
 	c10ExitNeverDropped(p, r, a)
+	c10StopSeesLateSpawns(p, r, a)
 	remoteSpawnParentLink(a, r, "C10.N9 remote-child-linked-to-parent-on-both-nodes")
 	lockPairing(p, r, "C10.N6 member-group-lock-paired", "C10.N6", 8, func(o string) bool { return strings.HasPrefix(o, "lib.Map[") })
 	// ---- N1
